@@ -15,7 +15,7 @@ from sympy.matrices.exceptions import ShapeError as SympyShapeError
 COMMON = "typhon/retrieval/oem/common.py"
 ERROR = "typhon/retrieval/oem/error.py"
 SHAPES = [(2, 1), (1, 2), (2, 2)]
-EXPECT = {"C17.S": 1, "C17.G": 1, "C17.A": 1, "C17.err": 2, "C17.pure": 1}
+EXPECT = {"C17.S": 1, "C17.G": 1, "C17.A": 1, "C17.err": 2, "C17.pure": 6}
 
 
 def generic(m, n):
@@ -153,6 +153,9 @@ def run(ctx):
         return [x, xa, A]
     ctx.attempt(check_smooth, ctx, args_smooth)
     ctx.attempt(rule_pure, ctx)
+    from ..purity import rule_pure as rule_args
+    ctx.attempt(rule_args, ctx, "C17.pure", [(COMMON, "error_covariance_matrix"), (COMMON, "retrieval_gain_matrix"), (COMMON, "averaging_kernel_matrix"),
+                                             (ERROR, "smoothing_error"), (ERROR, "retrieval_noise")])
 
 
 def check_smooth(ctx, make):
